@@ -140,6 +140,146 @@ def _vars_dict(I, env, extra=None):
     return d
 
 
+# ----------------------------------------------------------------------------------------
+# frame of a cut loop: an arbitrary iteration starts from the heap that reaches the loop, so
+# whatever the body changes in objects that existed before it is loop-carried state the
+# contract has to account for (havoc it at the head -- "havoc_heap" -- or list it under
+# "modifies" with the argument why the next iteration does not depend on it)
+
+
+def _is_repo_obj(v):
+    from .objects import ObjV
+
+    if not isinstance(v, ObjV):
+        return False
+    for c in v.cls.mro:
+        if "VC_MODEL" in c.ns:
+            return False
+    for c in v.cls.mro:
+        m = getattr(c, "module", None)
+        if m is not None and str(getattr(m, "name", "")).startswith("someip"):
+            return True
+    return False
+
+
+def _ref(I, x):
+    from .objects import BoundMethod, ObjV
+    from .values import BytearrayV, LazyDictV, LazySetV, MapV, SetV, SymListV, deref
+
+    x = deref(x)
+    if isinstance(x, (ListV, SymListV, DictV, BytearrayV, LazyDictV, LazySetV, MapV)) or (isinstance(x, SetV) and not x.frozen):
+        return ("id", id(x))
+    if isinstance(x, ObjV) and not (x.cls.is_dataclass and x.cls.frozen):
+        return ("id", id(x))
+    if isinstance(x, BoundMethod):
+        return ("bm", id(x.self_), id(x.func))
+    try:
+        return I.ghost.fingerprint(x)
+    except Exception:
+        return ("id", id(x))
+
+
+def _shallow(I, x):
+    from .objects import ObjV
+    from .values import BytearrayV, LazyDictV, LazySetV, MapV, SetV, SymListV
+
+    if isinstance(x, ObjV):
+        return tuple((k, _ref(I, v)) for k, v in x.fields.items())
+    if isinstance(x, ListV):
+        return ("l", id(x.sym)) + tuple(_ref(I, v) for v in x.items)
+    if isinstance(x, SymListV):
+        return ("sl", _ref(I, x.prefix)) + tuple(_ref(I, v) for v in x.items)
+    if isinstance(x, DictV):
+        return tuple((_ref(I, k), _ref(I, v)) for k, v in x.pairs)
+    if isinstance(x, SetV):
+        return tuple(_ref(I, v) for v in x.items)
+    if isinstance(x, BytearrayV):
+        return I.ghost.fingerprint(x)
+    if isinstance(x, MapV):
+        return (x.dom.get_id(), x.val.get_id())
+    if isinstance(x, LazySetV):
+        x = x.d
+    if isinstance(x, LazyDictV):
+        # entries materialised by reading are as they were; written ones differ from their origin
+        dirty = tuple((_ref(I, e[0]), _ref(I, e[1]), _ref(I, e[2])) for e in x.overlay if not (e[1] is e[3] and e[2] is e[4]))
+        return (x.version, x.base_alive, dirty)
+    return None
+
+
+def heap_snapshot(I, env, exempt=()):
+    """shallow states of the mutable objects the loop body can reach: the locals of the
+    function (and enclosing functions), objects of repository classes and the containers
+    hanging off them.  Objects of harness / model classes are boundaries (recorders, the
+    event-loop model: write-only or modelled separately)."""
+    from .objects import BoundMethod, ObjV
+    from .values import LazyDictV, LazySetV, SetV, SymListV, deref
+
+    seen = {}
+    names = {}
+    stack = []
+    e = env
+    while e is not None and e.func is not None:
+        for k, v in e.vars.items():
+            stack.append((v, k))
+        e = e.parent
+    skip = {id(deref(x)) for x in exempt}
+    while stack:
+        x, path = stack.pop()
+        x = deref(x)
+        if isinstance(x, BoundMethod):
+            stack.append((x.self_, path))
+            continue
+        if isinstance(x, tuple):
+            for i, y in enumerate(x):
+                stack.append((y, f"{path}[{i}]"))
+            continue
+        if id(x) in seen or id(x) in skip:
+            continue
+        if isinstance(x, ObjV):
+            if not _is_repo_obj(x):
+                continue
+            if x.cls.is_dataclass and x.cls.frozen:
+                for k, v in x.fields.items():
+                    stack.append((v, f"{path}.{k}"))
+                continue
+            seen[id(x)] = (x, _shallow(I, x))
+            names[id(x)] = path
+            for k, v in x.fields.items():
+                stack.append((v, f"{path}.{k}"))
+            continue
+        sh = _shallow(I, x)
+        if sh is None:
+            continue
+        seen[id(x)] = (x, sh)
+        names[id(x)] = path
+        if isinstance(x, ListV):
+            for i, v in enumerate(x.items):
+                stack.append((v, f"{path}[{i}]"))
+        elif isinstance(x, SymListV):
+            for i, v in enumerate(x.items):
+                stack.append((v, f"{path}[+{i}]"))
+        elif isinstance(x, DictV):
+            for k, v in x.pairs:
+                stack.append((v, f"{path}[...]"))
+        elif isinstance(x, SetV):
+            for v in x.items:
+                stack.append((v, f"{path}{{...}}"))
+        elif isinstance(x, (LazyDictV, LazySetV)):
+            d = x.d if isinstance(x, LazySetV) else x
+            for e_ in d.overlay:
+                stack.append((e_[1], f"{path}[...]"))
+    return seen, names
+
+
+def frame_violations(I, snap):
+    seen, names = snap
+    out = []
+    for oid, (x, sh) in seen.items():
+        if _shallow(I, x) != sh:
+            out.append(names[oid])
+    return sorted(out)
+
+
 def _call_bool(I, fn, args):
     r = I.call(fn, args, {}, None)
     if isinstance(r, SBool):
@@ -189,6 +329,10 @@ def cut_loop(I, node, env, spec):
         for vname, gen in havoc.pairs:
             listed.add(vname)
             env.assign(vname, I.call(gen, [vc, ctx.fresh_name(f"{name}.{vname}")], {}, None))
+    hh = spec.get("havoc_heap")
+    if hh is not None:
+        # heap locations the body modifies hold arbitrary values at an arbitrary iteration
+        I.call(hh, [vc, _vars_dict(I, env, {"$iter": seq} if is_for else None)], {}, None)
     # soundness of the cut: every other local the body assigns holds an unknown value at an
     # arbitrary iteration (harmless if the body assigns it before using it)
     target_names = assigned_names([node.target]) if is_for else set()
@@ -237,6 +381,11 @@ def cut_loop(I, node, env, spec):
         I.assign_target(node.target, x, env)
     if head is not None:
         I.call(head, [vc, _vars_dict(I, env, extra), True], {}, None)
+    modifies = spec.get("modifies")
+    exempt = list(I.lib.iterate(I, I.call(modifies, [vc, _vars_dict(I, env, extra)], {}, None), node)) if modifies is not None else []
+    # locals the contract havocs are arbitrary at the head already
+    exempt = exempt + [env.vars[n_] for n_ in listed if n_ in env.vars]
+    snap = heap_snapshot(I, env, exempt)
     v0 = None
     if variant is not None:
         v0 = I.call(variant, [vc, _vars_dict(I, env, extra)], {}, None)
@@ -252,6 +401,9 @@ def cut_loop(I, node, env, spec):
     for vname, v0_ in kept_values.items():
         e_ = I.lib.eq(I, env.vars.get(vname), v0_, node)
         ctx.check(e_, f"{name}.unmodified[{vname}]", where)
+    for path in frame_violations(I, snap):
+        # not a refutation of anything: the contract no longer describes the loop
+        ctx.undecided(f"{name}.frame[{path}]", where, f"the loop body changes {path}, which exists before the loop and is neither havocked at the head nor listed in the loop contract's frame: an arbitrary iteration is not covered by the cut")
     post = spec.get("post")
     if post is not None:
         I.call(post, [vc, _vars_dict(I, env, extra)], {}, None)
